@@ -400,8 +400,9 @@ Section Filters.
   Definition gf_skip (tag : option cname) (comp : cname) (istart iend start end_ : xt) : bool :=
     match tag with Some t => negb (cname_eqb t comp) | None => false end
     || (xle end_ istart || xle iend start).
+  (* [fix F19]: an open side of the enclosing range tells nothing *)
   Definition gf_matched (simple : bool) (istart iend start end_ : xt) : bool :=
-    simple && (xle start istart || xle iend end_).
+    simple && ((xlt MInf istart && xle start istart) || (xlt iend PInf && xle iend end_)).
 
   Definition get_filtered (filters : list (list elem)) (items : list item) : list (item * bool) :=
     let '(tag, start, end_, simple) := simplify_prefilters filters in
